@@ -124,6 +124,9 @@ impl Default for RegisterAllocator {
 
 /// Builder for constructing bytecode chunks
 pub struct BytecodeBuilder {
+    /// Block-scope depth (PushScope nesting) at the current emission point
+    scope_depth: usize,
+
     /// Bytecode instructions
     code: Vec<Op>,
 
@@ -156,6 +159,7 @@ impl BytecodeBuilder {
     /// Create a new bytecode builder
     pub fn new() -> Self {
         Self {
+            scope_depth: 0,
             code: Vec::new(),
             constants: Vec::new(),
             string_map: FxHashMap::default(),
@@ -200,9 +204,26 @@ impl BytecodeBuilder {
         self.current_span = None;
     }
 
+    /// Block-scope depth (PushScope nesting) at the current emission point
+    pub fn scope_depth(&self) -> usize {
+        self.scope_depth
+    }
+
+    /// Correct the tracked scope depth where control flow is not linear (code that
+    /// is reached from inside a scope the preceding instruction has just popped).
+    pub fn enter_scope_untracked(&mut self) {
+        self.scope_depth += 1;
+    }
+
     /// Emit an instruction and return its index
     pub fn emit(&mut self, op: Op) -> usize {
         let index = self.code.len();
+
+        match op {
+            Op::PushScope => self.scope_depth += 1,
+            Op::PopScope => self.scope_depth = self.scope_depth.saturating_sub(1),
+            _ => {}
+        }
 
         // Add source map entry if we have a span
         if let Some(span) = self.current_span {
@@ -291,8 +312,24 @@ impl BytecodeBuilder {
                 Op::JumpIfNullish { target: t, .. } => *t = target,
                 Op::JumpIfNotNullish { target: t, .. } => *t = target,
                 Op::IteratorDone { target: t, .. } => *t = target,
-                Op::Break { target: t, .. } => *t = target,
-                Op::Continue { target: t, .. } => *t = target,
+                // Break/Continue are patched when the emission point IS the target, so the
+                // current scope depth is the depth the jump has to unwind to.
+                Op::Break {
+                    target: t,
+                    scope_depth: d,
+                    ..
+                } => {
+                    *t = target;
+                    *d = self.scope_depth.min(u8::MAX as usize) as u8;
+                }
+                Op::Continue {
+                    target: t,
+                    scope_depth: d,
+                    ..
+                } => {
+                    *t = target;
+                    *d = self.scope_depth.min(u8::MAX as usize) as u8;
+                }
 
                 // PushTry has targets but is patched via patch_try_targets()
                 Op::PushTry { .. } => {}
